@@ -129,7 +129,7 @@ sp_strsv(char *uplo, char *trans, char *diag, SuperMatrix *L,
 	
 	if ( lsame_(uplo, "L") ) {
 	    /* Form x := inv(L)*x */
-    	    if ( L->nrow == 0 ) return 0; /* Quick return */
+    	    if ( L->nrow == 0 ) { SUPERLU_FREE(work); return 0; } /* Quick return */
 	    
 	    for (k = 0; k <= nsuper; k++) {
 		fsupc = L_FST_SUPC(k);
@@ -187,7 +187,7 @@ sp_strsv(char *uplo, char *trans, char *diag, SuperMatrix *L,
 	} else {
 	    /* Form x := inv(U)*x */
 	    
-	    if ( U->nrow == 0 ) return 0; /* Quick return */
+	    if ( U->nrow == 0 ) { SUPERLU_FREE(work); return 0; } /* Quick return */
 	    
 	    for (k = nsuper; k >= 0; k--) {
 	    	fsupc = L_FST_SUPC(k);
@@ -235,7 +235,7 @@ sp_strsv(char *uplo, char *trans, char *diag, SuperMatrix *L,
 	
 	if ( lsame_(uplo, "L") ) {
 	    /* Form x := inv(L')*x */
-    	    if ( L->nrow == 0 ) return 0; /* Quick return */
+    	    if ( L->nrow == 0 ) { SUPERLU_FREE(work); return 0; } /* Quick return */
 	    
 	    for (k = nsuper; k >= 0; --k) {
 	    	fsupc = L_FST_SUPC(k);
@@ -272,7 +272,7 @@ sp_strsv(char *uplo, char *trans, char *diag, SuperMatrix *L,
 	    }
 	} else {
 	    /* Form x := inv(U')*x */
-	    if ( U->nrow == 0 ) return 0; /* Quick return */
+	    if ( U->nrow == 0 ) { SUPERLU_FREE(work); return 0; } /* Quick return */
 	    
 	    for (k = 0; k <= nsuper; k++) {
 	    	fsupc = L_FST_SUPC(k);
